@@ -10,7 +10,9 @@
    An iterator is what NNTreeIterator holds: `path` = the kid_number of every PathElement from
    the root down (the PathElement's node is the node reached by the preceding kid numbers: the
    code maintains parent[/Kids][kid_number] == next node), and item_number/2 (-1 = invalid).
-   The path is kept also for invalid iterators because the code keeps it (see nn_increment).
+   The path is kept also for invalid iterators because the code keeps it (find() of an absent key returns
+   one); increment and insertAfter clear it first (fix 0aa534ea).  split() resets the limits of both halves
+   after attaching the second one (fix 091ae163).
 
    Mutation through handles is a function returning the new root.  Exceptions (QPDFExc through
    NNTreeImpl::error, logic_error through util::assertion) are None; warnings are counted.
@@ -156,30 +158,27 @@ Section NNTree.
                   let sp := Z.to_nat st in
                   (NInner l (firstn sp kids), NInner None (skipn sp kids), st)
               end in
-            (* first_half now holds the first part: resetLimits(to_split, parent) *)
+            (* first_half now holds the first part; second_node = new object holding the second *)
             let root1 := nn_upd (st_root s) (firstn d path) (fun _ => first_node) in
-            let '(root2, w2) := nn_reset_loop d d path root1 (st_warn s) in
-            (* second_node = new object; resetLimits(second_node, parent): first round on the
-               detached node (it is not the root, it has no /Limits yet), then up from parent->node *)
-            let '(second_node, root3, w3) :=
-              match nn_first_last second0 with
-              | None =>
-                  let '(r, w) := match dp with
-                                 | O => (root2, w2 + 1)
-                                 | S _ => nn_reset_loop dp dp path root2 (w2 + 1)
-                                 end in (second0, r, w)
-              | Some fl =>
-                  let '(r, w) := match dp with
-                                 | O => (root2, w2)
-                                 | S _ => nn_reset_loop dp dp path root2 w2
-                                 end in (nn_set_lim (Some fl) second0, r, w)
-              end in
             (* parent_kids.insert(parent->kid_number + 1, second_node) *)
-            match nn_get root3 (firstn dp path) with
+            match nn_get root1 (firstn dp path) with
             | Some (NInner pl pkids) =>
                 if (pk <? 0) || (nn_zlen pkids <? pk + 1) then None else
-                let root4 := nn_upd root3 (firstn dp path)
+                (* resetLimits(second_node, parent), now that it is attached: first round on the new
+                   node (not the root, no /Limits yet), then up from parent->node *)
+                let '(second_node, w1) :=
+                  match nn_first_last second0 with
+                  | None => (second0, st_warn s + 1)
+                  | Some fl => (nn_set_lim (Some fl) second0, st_warn s)
+                  end in
+                let root2 := nn_upd root1 (firstn dp path)
                                (fun _ => NInner pl (nn_insert_at pkids (Z.to_nat (pk + 1)) second_node)) in
+                let '(root3, w3) := match dp with
+                                    | O => (root2, w1)
+                                    | S _ => nn_reset_loop dp dp path root2 w1
+                                    end in
+                (* resetLimits(to_split, parent) *)
+                let '(root4, w4) := nn_reset_loop d d path root3 w3 in
                 let old_idx := if is_leaf then 2 * st_item s
                                else match nn_znth path (Z.of_nat d) with Some x => x | None => 0 end in
                 let '(path', item') :=
@@ -188,7 +187,7 @@ Section NNTree.
                     if is_leaf then (p1, st_item s - start_idx / 2)
                     else (nn_upd_nth p1 d (fun x => x - start_idx), st_item s)
                   else (path, st_item s) in
-                Some (NNSt root4 path' item' w3)
+                Some (NNSt root4 path' item' w4)
             | _ => None   (* "parent node has no /Kids array" *)
             end
         | _, _ => None
@@ -323,7 +322,7 @@ Section NNTree.
   (* increment(backward).  (In a tree whose leaves hold complete pairs of valid keys the
      warning branches at the end of the loop are not reachable; they are not modelled.) *)
   Definition nn_increment (backward : bool) (s : nnst) : nnst :=
-    if st_item s <? 0 then snd (nn_deepen_root (negb backward) true s)
+    if st_item s <? 0 then snd (nn_deepen_root (negb backward) true (st_with_iter s [] (st_item s)))  (* path.clear() *)
     else
       match nn_leaf_items s with
       | None => st_with_iter s (st_path s) (-1)
@@ -457,15 +456,12 @@ Section NNTree.
 
   Definition nn_insert_after (t : Z) (key : K) (v : Z) (s : nnst) : option nnst :=
     if st_item s <? 0 then
-      (* impl.insertFirst(key, value); deepen(impl.tree_root, true, false) on THIS iterator *)
+      (* impl.insertFirst(key, value); path.clear(); deepen(impl.tree_root, true, false) on THIS iterator *)
       match nn_insert_first t key v s with
       | None => None
       | Some s1 =>
-          let s2 := NNSt (st_root s1) (st_path s) (st_item s) (st_warn s1) in
-          match st_path s2 with
-          | [] => Some (snd (nn_deepen (nn_height (st_root s2)) true false (st_root s2) [] [] s2))
-          | _ => Some (st_warned s2)
-          end
+          let s2 := NNSt (st_root s1) [] (st_item s) (st_warn s1) in
+          Some (snd (nn_deepen (nn_height (st_root s2)) true false (st_root s2) [] [] s2))
       end
     else
       match nn_leaf_items s with
